@@ -181,6 +181,11 @@ fn oneshot(job: &Job, maps: &[Beatmap]) -> String {
             format!("{:?}", map.convert_ref(MODES[job.target], &mods).map(std::borrow::Cow::into_owned))
         }
         "bpm" => format!("{}", map.bpm().to_bits()),
+        "attrs" => format!(
+            "{:?} {:?}",
+            map.attributes().difficulty(&d).build(),
+            map.attributes().difficulty(&d).hit_windows()
+        ),
         _ => format!("{:?}", sut::oneshot_diff(&d, map, job.target)),
     }
 }
@@ -211,7 +216,7 @@ fn exec(c: &ConcCase, st: &mut Stats) -> Option<Violation> {
         .map(|j| {
             j.map < maps.len() && {
                 let mm = mode_idx(maps[j.map].mode);
-                mm == j.target || mm == 0 || j.kind == "bpm"
+                mm == j.target || mm == 0 || j.kind == "bpm" || j.kind == "attrs"
             }
         })
         .collect();
@@ -571,18 +576,28 @@ impl Engine for C20Engine {
 fn gen_storm(rng: &mut Rng, tier: Tier) -> ConcCase {
     let max_n = if cfg!(miri) { 5 } else if tier == Tier::Quick { 16 } else { 40 };
     let n_maps = 2 + rng.usize(2);
+    // a third of the storms consist of cheap whole-map queries (bpm, attribute builder): short calls
+    // overlap only if they are issued together many times
+    let cheap = rng.chance(0.33);
     let mut maps = Vec::new();
     for _ in 0..n_maps {
         let mut sh = gen_shape(rng, 0, max_n);
         sh.n = sh.n.clamp(3, max_n);
         sh.mix = 1 + rng.below(2) as u8; // sliders: converters have work to do
+        if cheap {
+            sh.tie_timing = true; // several tempos: bpm() has something to decide
+        }
         maps.push(gen_map(rng, &sh));
     }
     let target = 1 + rng.usize(3);
     let diff = if rng.chance(0.5) { DiffSpec::default() } else { gen_diff(rng, target) };
     let jobs: Vec<Job> = (0..n_maps)
         .map(|m| Job {
-            kind: (*rng.pick(&["convert", "convert", "calc", "strains"])).to_owned(),
+            kind: if cheap {
+                (*rng.pick(&["bpm", "bpm", "attrs"])).to_owned()
+            } else {
+                (*rng.pick(&["convert", "convert", "calc", "strains"])).to_owned()
+            },
             map: m,
             target,
             diff: diff.clone(),
@@ -591,7 +606,11 @@ fn gen_storm(rng: &mut Rng, tier: Tier) -> ConcCase {
         })
         .collect();
     let threads = n_maps;
-    let rounds = if cfg!(miri) { 2 } else { 3 + rng.usize(3) };
+    let rounds = match (cfg!(miri), cheap) {
+        (true, false) => 2,
+        (true, true) => 8,
+        (false, _) => 3 + rng.usize(3),
+    };
     let mut steps = Vec::new();
     for _ in 0..rounds {
         let mut ts: Vec<usize> = (0..threads).collect();
